@@ -9,14 +9,13 @@
 EXTENDS Integers, Sequences, FiniteSets, TLC
 HF == INSTANCE HproseFormat
 
-IsGraph(x) == DOMAIN x = DOMAIN [nodes |-> 0, root |-> 0, extra |-> 0]
-IsDecoded(x) == "v" \in DOMAIN x /\ "err" \in DOMAIN x
+\* e.gshape / e.wshape say what got / want are: "bytes" (a hex string), "graph" or "decoded" ([v, err])
 SameGraph(a, b) == HF!SameValue(a, b, {}) /\ HF!SameValue(b, a, {})
 
 C14Why(e) ==
     IF e.got = e.want THEN ""
-    ELSE IF IsGraph(e.want) /\ IsGraph(e.got) THEN (IF SameGraph(e.got, e.want) THEN "" ELSE e.what \o ": value differs")
-    ELSE IF IsDecoded(e.want) /\ IsDecoded(e.got)
+    ELSE IF e.wshape = "graph" /\ e.gshape = "graph" THEN (IF SameGraph(e.got, e.want) THEN "" ELSE e.what \o ": value differs")
+    ELSE IF e.wshape = "decoded" /\ e.gshape = "decoded"
          THEN (IF e.got.err = e.want.err /\ SameGraph(e.got.v, e.want.v) THEN "" ELSE e.what \o ": outcome differs")
     ELSE e.what \o ": bytes differ"
 =============================================================================
